@@ -2,7 +2,7 @@
 """
 Fast regression over ALL kept seeded changes: apply each patch in a scratch worktree and run the property's own check (then, if that
 does not report it, the neighbouring checks recorded as catching it) - no test suite, no demo.  Prints one line per seed and a summary.
-usage: tools/fast_recheck.py [first-number [last-number]]
+usage: [PROPS=C15,C16] tools/fast_recheck.py [first-number [last-number]]
 """
 import glob
 import json
@@ -22,6 +22,8 @@ for d in sorted(glob.glob(os.path.join(VERIF, 'seeded', 'C*-*')), key=lambda x: 
     sid = os.path.basename(d)
     pid, num = sid.split('-')
     if not (lo <= int(num) <= hi):
+        continue
+    if os.environ.get('PROPS') and pid not in os.environ['PROPS'].split(','):
         continue
     try:
         m = json.load(open(os.path.join(d, 'meta.json')))
